@@ -295,13 +295,13 @@ func vh_C17_Failures() {
 	vfAssert("failure-comes-back-as-err", r != nil && r.Err != nil)
 	if fault == 0 {
 		vfAssert("serializer-failure-sends-nothing", len(e.tr.seen) == 0)
-		vfAssert("serializer-error", r.Err == errC17Ser)
+		vfAssert("lemma/serializer-error-is-the-serializers-own-value", r.Err == errC17Ser) // the property asks for "Err", not for this very value
 	}
 	if fault == 2 {
-		vfAssert("read-error", r.Err == errVhRead)
+		vfAssert("lemma/read-error-is-the-readers-own-value", r.Err == errVhRead)
 	}
 	if fault >= 3 {
-		vfAssert("decoder-error", r.Err == errC17Dec)
+		vfAssert("lemma/decoder-error-is-the-decoders-own-value", r.Err == errC17Dec)
 	}
 	vfReach("end")
 }
